@@ -177,6 +177,14 @@ func (b *builder) base(o baseOpt) {
 				d.Name = ""
 			}
 			c.Devices = append(c.Devices, d)
+			if o.badDevAddrs && r.Intn(8) == 0 {
+				// the same controller listed twice: the later entry is the one that counts
+				d2 := d
+				d2.Name = d.Name + " (again)"
+				d2.Addr = pick(r, "", fmt.Sprintf("%s:%d", k.ip, k.port), b.prefix+".200:60000", k.ip+":60001")
+				d2.Protocol = pick(r, "udp", "tcp")
+				c.Devices = append(c.Devices, d2)
+			}
 		}
 		sc.Clients = append(sc.Clients, c)
 	}
